@@ -1227,7 +1227,7 @@ PROPS = {
     "C15": dict(module="FV.Props.C15", theorems=["FV.Props.C15_emplace_total", "FV.Props.C15_accepts_iff_fits", "FV.Props.C15_vec_accepts_iff_fits", "FV.emplaceU_acc", "FV.flexFill_acc", "FV.repB_iff"], suites=["emplace"], proj=proj_C15, oracle=oracle_C15, post=post_C15),
     "C18": dict(module="FV.Props.C18", theorems=["FV.Props.C18_vec_from_iterator_partial", "FV.Props.C18_flex_from_iterator_partial", "FV.Props.C18_nested_enum_counterexample", "FV.Props.C18_failed_assign_leaves_valid", "FV.emplaceU_gsafe", "FV.emplaceU_assign_valid", "FV.own_bytes_validate"], suites=["emplace"], proj=proj_C18, oracle=oracle_C18),
     "C20": dict(module="FV.Props.C20", theorems=["FV.Props.C20_vec_default_partial", "FV.Props.C20_default_valid_partial", "FV.Props.C20_default_content", "FV.Props.C20_str_default_partial", "FV.Props.C20_flex_default_partial", "FV.Props.C20_default_size", "FV.Props.C20_empty_always_accepted"], suites=["emplace"], proj=proj_C20, oracle=oracle_C20, post=post_C20),
-    "C11": dict(module="FV.Props.C11", theorems=["FV.Props.C11_vec_step_refines", "FV.Props.C11_history", "FV.Props.C11_valid_gives_invariant", "FV.Props.C11_str_push", "FV.Utf8Ok.append", "FV.Props.C11_history_observables"], suites=["ops"], proj=proj_C11, oracle=oracle_C11),
+    "C11": dict(module="FV.Props.C11", theorems=["FV.Props.C11_vec_step_refines", "FV.Props.C11_history", "FV.Props.C11_valid_gives_invariant", "FV.Props.C11_str_push", "FV.Utf8Ok.append", "FV.Props.C11_history_observables", "FV.Props.C11_str_history"], suites=["ops"], proj=proj_C11, oracle=oracle_C11),
     "C12": dict(module="FV.Props.C12Push", theorems=["FV.Props.C12_valid_iff_sequence", "FV.Props.C12_truncate", "FV.Props.C12_pop", "FV.Props.C12_push", "FV.Props.C12_pushed_item_content", "FV.Props.C12_history", "FV.Props.C12_push_accepts_iff", "FV.Props.C12_item_edit", "FV.Props.C12_truncate_noop", "FV.Chain.edit", "FV.Props.C12_len_is_empty"], suites=["ops"], proj=proj_C12, oracle=oracle_C12, post=post_witness("C12")),
     "C13": dict(module="FV.Props.C13", theorems=["FV.Props.C13_vec_refused_unchanged", "FV.Props.C13_flex_push_refused_unchanged", "FV.Props.C13_flex_push_refused_size", "FV.flexPush_refused_size", "FV.Props.C13_vec_any_refusal_unchanged", "FV.Props.C13_flex_pop_empty_unchanged", "FV.Props.C13_any_refusal_unchanged"], suites=["ops"], proj=proj_C13, oracle=oracle_C13),
     "C14": dict(module="FV.Props.C14", theorems=["FV.Props.C14_write_frame", "FV.Props.C14_item_edit_frame", "FV.Props.C14_emplace_inside", "FV.Props.C14_assign_frame", "FV.Props.C14_truncate_frame", "FV.Props.C14_field_write_frame", "FV.Props.posList_disjoint", "FV.Props.C14_setField_frame", "FV.Props.C14_vec_op_keeps_length", "FV.Props.C14_last_field_frame", "FV.Props.C14_last_variant_field_frame"], suites=["emplace", "ops"], proj=proj_C14, oracle=oracle_C14),
